@@ -1,0 +1,10 @@
+//go:build verif
+
+// Specification vocabulary for the protobuf message structs, used by /verif (govc). Comment-only: this file adds no code.
+
+package sketchpb
+
+//@ mode ints=wrap floats=real
+
+// storage a Store message owns: the struct, the contiguous-counts array and the sparse-counts map
+//@ footprint Store(s) := s, arr(s.ContiguousBinCounts), s.BinCounts
